@@ -11,6 +11,7 @@ Decided statically (structural clauses, every error value x field combination x 
  R5 the is_idempotent flag shown to the policy is the caller's (copied from self.is_idempotent / statement config).
 Not decided: behaviour of user-supplied policies; end-to-end frame counts.
 """
+from ..inline import inline_view
 from ..dataflow import Dataflow, adt_of_type
 from ..mir import AnchorLost
 
@@ -352,7 +353,7 @@ def r6(ctx, facts):
 
 
 def check(ctx):
-    facts = ctx.facts("default")
+    facts = inline_view(ctx.facts("default"))
     r1_r2_r3(ctx, facts)
     try:
         r6(ctx, facts)
